@@ -39,7 +39,8 @@ func init() {
 		MinEvaluations: map[string]int{"quick": 15000, "thorough": 400000},
 		MinNontrivial:  map[string]int{"quick": 15000, "thorough": 400000},
 		RequiredObs: []string{"clean_runs", "weight_calls", "fault_runs:permanent", "fault_runs:transient", "fault_runs:short-error", "fault_runs:short-nil-error",
-			"offline:records_judged", "offline:bases_complete", "section:header", "section:weights", "section:trailer"},
+			"offline:records_judged", "offline:bases_complete", "section:header", "section:weights", "section:trailer",
+			"sampled:fault_runs:permanent", "sampled:fault_runs:transient", "sampled:fault_runs:short-error", "sampled:fault_runs:short-nil-error", "offline:sampled:records_judged"},
 	})
 }
 
@@ -218,8 +219,9 @@ func nBucket(n int) string {
 type faultDesc struct {
 	Pos  int    `json:"pos"`
 	Mode string `json:"mode"`
-	Len  int    `json:"len"`  // size of the faulted write in the fault-free run
-	Sect string `json:"sect"` // classified online (re-derived offline)
+	Len  int    `json:"len"`           // size of the faulted write in the fault-free run
+	Sect string `json:"sect"`          // classified online (re-derived offline)
+	Off  int    `json:"off,omitempty"` // sampled plane: byte offset of that write in the fault-free run
 }
 
 // event is one line of the event log.  K = "base": the fault-free run of
@@ -231,12 +233,13 @@ type event struct {
 	RS uint64 `json:"rs,omitempty"`
 	W  int    `json:"W"`
 	// base
-	Sizes  []int    `json:"writes,omitempty"`
-	Bytes  int      `json:"bytes,omitempty"`
-	WS     int      `json:"ws,omitempty"`
-	ES     int      `json:"es,omitempty"`
-	Header string   `json:"header,omitempty"` // the bytes before the weight section
-	Modes  []string `json:"modes,omitempty"`  // modes enumerated over all positions for this base
+	Sizes  []int       `json:"writes,omitempty"`
+	Bytes  int         `json:"bytes,omitempty"`
+	WS     int         `json:"ws,omitempty"`
+	ES     int         `json:"es,omitempty"`
+	Header string      `json:"header,omitempty"` // the bytes before the weight section
+	Modes  []string    `json:"modes,omitempty"`  // modes enumerated over all positions for this base
+	Plan   *samplePlan `json:"plan,omitempty"`   // sampled plane ("sbase"): which positions are injected
 	// fault
 	Fault    *faultDesc `json:"fault,omitempty"`
 	Fired    bool       `json:"fired,omitempty"`
@@ -435,6 +438,10 @@ func run(c *engine.Ctx) {
 		}
 	}
 
+	// 2b. large instances around 256 / 512 / 1024 rows: full fault-free check,
+	// SAMPLED fault positions (sampled.go).
+	sampledUnits(c)
+
 	// 3. thorough: real files under strace write(2) error injection.
 	if c.Thorough() {
 		for _, n := range []int{1, 2, 3, 5, 7, 0} {
@@ -462,7 +469,7 @@ func finish(s *engine.Super) {
 		seen map[string][]bool
 	}
 	bases := map[string]*baseInfo{}
-	var faults []event
+	var faults, sbases, sfaults []event
 	bad, nBase := 0, 0
 	s.EachLine(stream, func(line []byte) {
 		var ev event
@@ -492,6 +499,10 @@ func finish(s *engine.Super) {
 			}
 		case "fault":
 			faults = append(faults, ev)
+		case "sbase":
+			sbases = append(sbases, ev)
+		case "sfault":
+			sfaults = append(sfaults, ev)
 		default:
 			bad++
 		}
@@ -552,7 +563,7 @@ func finish(s *engine.Super) {
 			s.Violation(violKey(ev.Fault.Mode, loc), ev, fmt.Sprintf("LIB returned nil although write %d failed (%d of %d bytes reached the writer)", ev.Fault.Pos, ev.Got, bi.ev.Bytes), "a non-nil error")
 		}
 	}
-	s.AddEval(judged)
+	s.AddEval(judged + sampledFinish(s, sbases, sfaults))
 	s.AddObs("offline:records_judged", judged)
 	s.AddObs("offline:verdicts_violated", int64(viol))
 	// completeness: every position of every mode of every base
